@@ -167,6 +167,11 @@ class C02(Prop):
                                   p_chop=rng.choice([0.15, 0.3, 0.5]))
             spec.append((asm, None))
             spec.append((asm, make_prio(rng)))
+        # chains and slabs with exactly one chop per family: counts travel far, blocks are completed direction by direction
+        for i in range(ctx.n(90, 1500)):
+            dims = rng.choice([(7, 1, 1), (1, 6, 1), (5, 2, 1), (4, 1, 2), (3, 3, 1)])
+            asm = gc.gen_assembly(rng, max_cells=ctx.n(8, 12), min_cells=4, dims=dims, sparse=True, jitter=False)
+            spec.append((asm, None if rng.random() < 0.7 else make_prio(rng)))
         return spec
 
     def correspond(self, ctx):
